@@ -798,6 +798,10 @@ Definition lookupLed (ty : tokentype) : option (token -> node -> PM node) :=
 
 End Denotations.
 
+Definition opens_operand (t : tokentype) : bool :=
+  tt_eqb t typeParenOpen || tt_eqb t typeBracketOpen || tt_eqb t typeBraceOpen ||
+  tt_eqb t typeMinus || tt_eqb t typePipe.
+
 (* func (p *parser) parseExpression(rbp int) Node, and its "for rbp < bp(p.token.Type)" loop.
    One unit of fuel per nesting level and per loop iteration; the nud/led called at fuel
    [S f] recurses with [parseExpression f] and runs its own loops with fuel [f]. *)
@@ -808,7 +812,8 @@ Fixpoint parseExpression (fuel : nat) (rbp : Z) {struct fuel} : PM node :=
       do t <- curToken;
       if tt_eqb (ttype t) typeEOF then perr (mkError ErrUnexpectedEOF t "")
       else
-        advance false ;;
+        (* a token that only opens an operand is followed by another operand *)
+        advance (opens_operand (ttype t)) ;;
         match lookupNud f (parseExpression f) (ttype t) with
         | None => perr (mkError ErrPrefix t "")
         | Some nud =>
